@@ -127,6 +127,9 @@ struct Server
             switch (b)
             {
             case 'a': pv::send_all(c, plain); break;
+            // an interim response first: in the same segment as the final one (q), 20 ms ahead of it (Q)
+            case 'q': pv::send_all(c, "HTTP/1.1 100 Continue\r\n\r\n" + plain); break;
+            case 'Q': pv::send_all(c, "HTTP/1.1 100 Continue\r\n\r\nHTTP/1.1 102 Processing\r\n\r\n"); nap(20); pv::send_all(c, plain); break;
             case 'd': nap(60); pv::send_all(c, plain); break;
             case 'e': nap(250); pv::send_all(c, plain); break;
             case 'g': nap(timeout_ms * 7 / 10); if (!gone) pv::send_all(c, plain); break;
